@@ -132,7 +132,7 @@ def read_payload(
     """
     lines = copy_buffer(buffer).maybe_extract_lines()
 
-    if lines is None:
+    if not lines:
         raise PacketError("Not an HTTP payload, or payload not complete")
 
     lines = [bytes(line) for line in lines]
